@@ -23,14 +23,46 @@ theorem merge_expand (ls : List Line) : expand (mergeRuns ls) = ls := by
   | none => simp [Writer.pending, hc] at a ⊢; exact a
   | some x => simp [Writer.pending, hc, expand_append, expand] at a ⊢; exact a
 
-/-- Only lines that `logLine.Equal` identifies are merged, and those are equal in every observable field. -/
+/-- The merge decision, over the `Equal` regenerated from log/logging.go (`PB.Gen.Log.lineEqual`): two lines
+    are identified exactly when NEITHER was submitted by a context tracer and message, file, line and level
+    agree (the timestamp is deliberately not compared). `||` → `&&` in the tracer case, a dropped field
+    comparison or an added case in the source changes the generated function and breaks this proof. -/
+theorem merge_decision (a b : Line) :
+    a.equal b = true ↔
+      (a.trace = none ∧ b.trace = none ∧ a.msg = b.msg ∧ a.file = b.file ∧ a.line = b.line ∧ a.lvl = b.lvl) :=
+  equal_iff a b
+
+/-- The regenerated switch has the five cases the model was written against, in this order. -/
+theorem merge_decision_source :
+    PB.Gen.Log.equalCases = ["ll.msg != ol.msg", "ll.tracer != nil || ol.tracer != nil", "ll.file != ol.file",
+      "ll.line != ol.line", "ll.level != ol.level"] := by decide
+
+/-- Only lines that `logLine.Equal` identifies are merged, and those are equal in every observable field and
+    are not tracer submissions (neither of them). -/
 theorem merged_lines_identical (a b : Line) (h : a.equal b = true) :
-    a = b ∧ a.trace = none := by
-  have := equal_eq h
-  subst this
-  refine ⟨rfl, ?_⟩
-  unfold Line.equal at h
-  cases ht : a.trace <;> simp_all
+    a = b ∧ a.trace = none ∧ b.trace = none := by
+  have hq := (equal_iff a b).mp h
+  exact ⟨equal_eq h, hq.1, hq.2.1⟩
+
+/-- A tracer submission is identified with nothing: not with a plain line of the same text, call site and
+    level (in either order), not with another submission, not with itself. -/
+theorem tracer_never_equal (a b : Line) (h : a.trace.isSome = true ∨ b.trace.isSome = true) :
+    a.equal b = false := by
+  cases he : a.equal b with
+  | false => rfl
+  | true =>
+    have hq := (equal_iff a b).mp he
+    rcases h with h | h <;> simp_all
+
+/-- One writeLoop round over any batch: no write of a tracer line carries a repetition count … -/
+theorem tracer_lines_never_merged (ls : List Line) :
+    ∀ w ∈ mergeRuns ls, w.1.trace.isSome = true → w.2 = 0 := mergeRuns_tracer ls
+
+/-- … and the tracer submissions of the batch are written one by one, each exactly once, in order, with
+    everything they carry (a `Line` includes its collected entries), wherever they stand in the batch. -/
+theorem batch_keeps_every_tracer_submission (ls : List Line) :
+    ((mergeRuns ls).filter (·.1.trace.isSome)).map (·.1) = ls.filter (·.trace.isSome) := by
+  rw [← expand_filter_tracer _ (mergeRuns_tracer ls), merge_expand]
 
 /-! ### Exactly once, in order -/
 
@@ -65,6 +97,25 @@ theorem exactly_once_when_drained {s : St} (h : Reachable s) (hb : s.buf = []) (
     have := hi.p1 p
     rw [hp p] at this
     simpa using this
+
+/-- In every reachable state no adapter write of a tracer submission carries a repetition count: a
+    submission is never counted as a repetition of another line, nor another line as a repetition of it. -/
+theorem tracer_writes_unmerged {s : St} (h : Reachable s) :
+    ∀ w ∈ s.out, w.1.trace.isSome = true → w.2 = 0 := (trinv_reachable h).t2
+
+/-- While the writer counts repetitions, the line it holds is a plain line. -/
+theorem writer_counts_only_plain_lines {s : St} (h : Reachable s) (c : Line) (hc : s.w.cur = some c)
+    (hd : 0 < s.w.dups) : c.trace = none := (trinv_reachable h).t1 c hc hd
+
+/-- Every tracer submission is accounted for on its own: the tracer writes the adapter received (one call
+    each), followed by the submissions the writer holds or that are still buffered, are exactly the
+    submissions that were enqueued, in order — each once, with its collected entries. -/
+theorem tracer_submissions_exactly_once {s : St} (h : Reachable s) :
+    (s.out.filter (·.1.trace.isSome)).map (·.1) ++
+        (s.w.pending ++ s.buf.map (·.2)).filter (·.trace.isSome) =
+      (s.enq.map (·.2)).filter (·.trace.isSome) := by
+  rw [← output_is_enqueued_prefix h, ← expand_filter_tracer _ (tracer_writes_unmerged h)]
+  simp [List.filter_append]
 
 /-- A goroutine blocked on a full buffer holds exactly its next line; the buffer never exceeds its capacity. -/
 theorem full_buffer_blocks_but_preserves_order {s : St} (h : Reachable s) (p : Nat) (l : Line)
@@ -127,6 +178,67 @@ theorem written_lines_were_accepted {s : St} (h : Reachable s) (l : Line) (hl : 
   apply List.mem_append_left
   simp only [proj, List.mem_map, List.mem_filter]
   exact ⟨x, ⟨List.mem_append_left _ hx, by simp⟩, rfl⟩
+
+/-! ### The levels in force at Start: flags, `ParseLevel`, `Severity.Name` -/
+
+/-- `ParseLevel` knows exactly the six severities: its result is 0 (unknown name) or one of them … -/
+theorem parseLevel_range (s : String) :
+    parseLevel s = 0 ∨ ∃ c ∈ PB.Gen.Log.severities, c.2 = parseLevel s := by
+  unfold parseLevel lookupLevel
+  generalize s.toLower = t
+  simp only [PB.Gen.Log.levelNames, List.lookup]
+  repeat' split
+  all_goals first | (left; rfl) | (right; decide)
+
+/-- … and it reads back what `Severity.Name` prints, for every severity (both tables regenerated). -/
+theorem parseLevel_reads_names : ∀ c ∈ PB.Gen.Log.severities, lookupLevel (severityName c.2) = c.2 := by decide
+
+/-- Without flags Start leaves the levels as they were set before. -/
+theorem start_without_flags (f : String → Nat) (pre : Levels) : startLevels f pre "" "" = pre := by
+  simp [startLevels]
+
+/-- `-log`: a known name sets the global level to that severity, an unknown one to info. -/
+theorem start_log_flag (f : String → Nat) (pre : Levels) (lf pf : String) (h : lf ≠ "") :
+    (startLevels f pre lf pf).glob = if parseLevel lf = 0 then PB.Gen.Log.infoLevel else parseLevel lf := by
+  unfold startLevels
+  by_cases hp : pf = "" <;> simp [h, hp]
+
+/-- A non-empty `-plog` activates the package levels (whatever could be read of it) and replaces the
+    package levels set before Start; an empty one leaves them alone. -/
+theorem start_plog_flag (f : String → Nat) (pre : Levels) (lf pf : String) :
+    (pf ≠ "" → (startLevels f pre lf pf).active = true) ∧
+    (pf = "" → (startLevels f pre lf pf).active = pre.active ∧ (startLevels f pre lf pf).pkgs = pre.pkgs) := by
+  unfold startLevels
+  by_cases hp : pf = "" <;> simp [hp]
+
+/-- The `-plog` loop stops at the first pair that is not `name=<known level>`: what follows is not read. -/
+theorem parsePairs_stops (good : List (List String)) (bad : List String) (rest : List (List String))
+    (acc : List (String × Nat)) (hb : ∀ k v, bad = [k, v] → parseLevel v = 0) :
+    parsePairs (good ++ bad :: rest) acc = parsePairs (good ++ [bad]) acc := by
+  induction good generalizing acc with
+  | nil =>
+    match bad, hb with
+    | [], _ => simp [parsePairs]
+    | [_], _ => simp [parsePairs]
+    | [k, v], hb => simp [parsePairs, hb k v rfl]
+    | _ :: _ :: _ :: _, _ => simp [parsePairs]
+  | cons g gs ih =>
+    match g with
+    | [] => simp [parsePairs]
+    | [_] => simp [parsePairs]
+    | [k, v] =>
+      simp only [List.cons_append, parsePairs]
+      split
+      · rfl
+      · exact ih _
+    | _ :: _ :: _ :: _ => simp [parsePairs]
+
+/-- A well-formed pair sets its package's level (replacing an earlier entry for the same package). -/
+theorem parsePairs_pair (k v : String) (rest : List (List String)) (acc : List (String × Nat))
+    (hv : parseLevel v ≠ 0) :
+    parsePairs ([k, v] :: rest) acc = parsePairs rest (setPkg acc k (parseLevel v)) ∧
+      (setPkg acc k (parseLevel v)).lookup k = some (parseLevel v) := by
+  simp [parsePairs, hv, setPkg, List.lookup]
 
 /-! ### Wake-up handshake -/
 
@@ -233,17 +345,29 @@ theorem step_wforce_local {s s' : St} {pid : Nat} (hs : step s (.wforce pid) = s
 
 /-- If `checkRun` passes, every adapter line belongs to a known goroutine and every goroutine's part of the
     expanded output conforms to its items: in program order, every must-line present, no line more often
-    than logged, nothing that was disabled, tracer lines with exactly their entries and never merged. -/
+    than logged, nothing that was disabled, tracer lines with exactly their entries and never merged; and
+    the tracer submissions that had to arrive are, one by one and in order, among the tracer lines received. -/
 theorem checkRun_sound (np : Nat) (exps : Nat → List Item) (outs : List OutW)
     (h : checkRun np exps outs = .pass) :
     (∀ o ∈ outs, o.gid < np) ∧ (∀ o ∈ outs, o.entries.isSome → o.dups = 0) ∧
+      (∀ g, g < np → (tracerMust (exps g)).Sublist (tracerGot g outs)) ∧
       ∀ g, g < np → Conforms (exps g) (expandOut g outs) :=
   PB.Log.checkRun_sound np exps outs h
 
-/-- Conversely the per-goroutine check accepts every conforming output (items pairwise distinct). -/
-theorem checkProd_complete (gid : Nat) {es : List Item} {got : List Got} (h : Conforms es got)
-    (hd : (es.map (·.item)).Nodup) : checkProd gid es got = .pass :=
-  PB.Log.checkProd_complete gid h hd
+/-- Conversely the per-goroutine check accepts every conforming output — whatever the items are (the same
+    line may be logged again after other lines, optional and disabled items may stand in between): the
+    checker never demands more than its specification. -/
+theorem checkProd_complete (gid : Nat) {es : List Item} {got : List Got} (h : Conforms es got) :
+    checkProd gid es got = .pass :=
+  PB.Log.checkProd_complete gid h
+
+/-- The exact decision procedure behind it. -/
+theorem conformsB_iff (es : List Item) (got : List Got) : conformsB es got = true ↔ Conforms es got :=
+  PB.Log.conformsB_iff es got
+
+/-- The subsequence test for the required tracer submissions is exact. -/
+theorem firstMissing_iff (must got : List Got) : firstMissing must got = none ↔ must.Sublist got :=
+  ⟨firstMissing_sound must got, firstMissing_complete must got⟩
 
 /-! ### Context tracers -/
 
@@ -287,9 +411,9 @@ theorem reachable_from_source_config (paced : Bool) (lv : Levels) :
 
 /-! ### Non-vacuity: concrete runs of the model that meet the hypotheses above -/
 
-def l1 : Line := ⟨1, 3, 1, none⟩
-def l2 : Line := ⟨2, 5, 2, none⟩
-def lt : Line := ⟨9, 4, 3, some [⟨7, 1, 3⟩, ⟨8, 2, 3⟩]⟩
+def l1 : Line := ⟨1, 3, 1, 10, none⟩
+def l2 : Line := ⟨2, 5, 1, 20, none⟩
+def lt : Line := ⟨9, 4, 1, 30, some [⟨7, 1, 1, 30⟩, ⟨8, 2, 1, 30⟩]⟩
 
 /-- Two identical lines from one goroutine, merged into one write with one repetition; second call finds
     the flag already set; then Shutdown drains and the writer exits. -/
@@ -338,9 +462,47 @@ example : enabled ⟨4, true, [(7, 2)]⟩ (some 7) 3 = true ∧ enabled ⟨4, tr
     threshold ⟨4, true, [(7, 2)]⟩ 7 = 2 ∧ threshold ⟨4, true, [(7, 2)]⟩ 8 = 4 := by decide
 
 /-- Merging and expansion on a batch with runs, a tracer line (never merged) and a twin at another site. -/
-example : mergeRuns [l1, l1, l1, l2, lt, lt, ⟨1, 3, 2, none⟩] =
-    [(l1, 2), (l2, 0), (lt, 0), (lt, 0), (⟨1, 3, 2, none⟩, 0)] := by decide
-example : submitLine [⟨7, 1, 3⟩, ⟨8, 2, 3⟩, ⟨9, 4, 3⟩] = some lt := by decide
+example : mergeRuns [l1, l1, l1, l2, lt, lt, ⟨1, 3, 1, 11, none⟩] =
+    [(l1, 2), (l2, 0), (lt, 0), (lt, 0), (⟨1, 3, 1, 11, none⟩, 0)] := by decide
+example : submitLine [⟨7, 1, 1, 30⟩, ⟨8, 2, 1, 30⟩, ⟨9, 4, 1, 30⟩] = some lt := by decide
+
+/-- The same text, file, line and level once as a plain line and once as the main line of a submission
+    (one call site reached through a possibly-nil tracer): never merged, in either order, nor between two
+    plain lines; two submissions are never merged either, whether they collected the same lines or not. -/
+def l1t : Line := { l1 with trace := some [] }
+def l1u : Line := { l1 with trace := some [⟨7, 1, 1, 30⟩] }
+example : mergeRuns [l1, l1t] = [(l1, 0), (l1t, 0)] := by decide
+example : mergeRuns [l1t, l1] = [(l1t, 0), (l1, 0)] := by decide
+example : mergeRuns [l1, l1, l1t, l1, l1] = [(l1, 1), (l1t, 0), (l1, 1)] := by decide
+example : mergeRuns [l1t, l1t, l1u, l1u] = [(l1t, 0), (l1t, 0), (l1u, 0), (l1u, 0)] := by decide
+/-- Identical text from another file, another line, at another level: not merged. -/
+example : mergeRuns [l1, { l1 with file := 2 }, { l1 with line := 11 }, { l1 with lvl := 4 }, l1] =
+    [(l1, 0), ({ l1 with file := 2 }, 0), ({ l1 with line := 11 }, 0), ({ l1 with lvl := 4 }, 0), (l1, 0)] := by
+  decide
+/-- The hypotheses of `writer_counts_only_plain_lines` / `tracer_submissions_exactly_once` are met with a
+    submission directly behind an identical plain line in one batch. -/
+def demoMixed : List Act :=
+  [.p 0 (.call l1 (some 0) true), .p 0 (.filter true), .p 0 .enq, .p 0 (.flag true), .p 0 .tok,
+   .p 0 (.call l1 (some 0) true), .p 0 (.filter true), .p 0 .enq, .p 0 (.flag false),
+   .p 0 (.submit l1t), .p 0 .enq, .p 0 (.flag false),
+   .w .token, .w .unset, .trigger, .w (.deq l1), .w (.deq l1), .w (.deq l1t), .w .empty]
+example : (run (St.init 8 true ⟨3, false, []⟩) (demoMixed.take 17)).map (fun s => (s.w.cur, s.w.dups)) =
+    some (some l1, 1) := by decide
+example : (run (St.init 8 true ⟨3, false, []⟩) demoMixed).map (fun s => s.out) =
+    some [(l1, 1), (l1t, 0)] := by decide
+
+/-- Start with flags: the pairs of `-plog orga=debug,zz=trace,orga=ERROR,bad,orgb=info`: orga error (the later
+    entry wins), zz trace, the malformed pair ends the reading (orgb is not read). An unknown `-log` name
+    falls back to info and leaves the package levels set before Start alone. -/
+example : parsePairs [["orga", "debug"], ["zz", "trace"], ["orga", "ERROR"], ["bad"], ["orgb", "info"]] [] =
+    [("orga", 5), ("zz", 1)] := by
+  with_unfolding_all decide
+example : startLevels (fun _ => 9) ⟨2, true, [(1, 6)]⟩ "verbose" "" = ⟨3, true, [(1, 6)]⟩ := by
+  with_unfolding_all decide
+example : parseLevel "WARNing" = 4 ∧ parseLevel "Trace" = 1 ∧ parseLevel " info" = 0 := by
+  with_unfolding_all decide
+example : lookupLevel "warning" = 4 ∧ lookupLevel "warn" = 0 ∧ lookupLevel "" = 0 ∧ severityName 5 = "error" ∧
+    severityName 0 = "none" ∧ severityName 7 = "none" := by decide
 
 /-- The run checker: a conforming output passes, a lost / duplicated / filtered / reordered one fails. -/
 def exps0 : Nat → List Item := fun g =>
@@ -352,6 +514,32 @@ example : checkRun 1 exps0 [⟨0, 1, 0, none⟩, ⟨0, 3, 0, some [7, 8]⟩] = .
 example : checkRun 1 exps0 [⟨0, 1, 2, none⟩, ⟨0, 3, 0, some [7, 8]⟩] = .fail "duplicated" 0 1 := by decide
 example : checkRun 1 exps0 [⟨0, 1, 1, none⟩, ⟨0, 2, 0, none⟩, ⟨0, 3, 0, some [7, 8]⟩] = .fail "filtered" 0 2 := by decide
 example : checkRun 1 exps0 [⟨0, 3, 0, some [7, 8]⟩, ⟨0, 1, 1, none⟩] = .fail "lost" 0 1 := by decide
-example : checkRun 1 exps0 [⟨0, 1, 1, none⟩, ⟨0, 3, 0, some [7]⟩] = .fail "trace" 0 3 := by decide
+example : checkRun 1 exps0 [⟨0, 1, 1, none⟩, ⟨0, 3, 0, some [7]⟩] = .fail "tracer-lost" 0 3 := by decide
+/-- A plain line, then a submission and a second plain call of the same text (item ids 1 / 5 differ in the
+    tracer bit only in the harness; here: distinct ids), submissions with different collected lines. -/
+def exps1 : Nat → List Item := fun g =>
+  if g = 0 then [⟨1, 3, 0, .plain, [⟨some ⟨3, false, []⟩, true, 1⟩], []⟩,
+                 ⟨5, 3, 0, .tracer, [⟨some ⟨3, false, []⟩, true, 1⟩], []⟩,
+                 ⟨5, 3, 0, .tracer, [⟨some ⟨3, false, []⟩, true, 2⟩], [7]⟩,
+                 ⟨1, 3, 0, .plain, [⟨some ⟨3, false, []⟩, true, 1⟩], []⟩] else []
+example : checkRun 1 exps1 [⟨0, 1, 0, none⟩, ⟨0, 5, 0, some []⟩, ⟨0, 5, 0, some [7]⟩, ⟨0, 5, 0, some [7]⟩, ⟨0, 1, 0, none⟩] = .pass := by decide
+/-- the submission swallowed by the preceding plain line (`duplicates = 1`) -/
+example : checkRun 1 exps1 [⟨0, 1, 1, none⟩, ⟨0, 5, 0, some [7]⟩, ⟨0, 5, 0, some [7]⟩, ⟨0, 1, 0, none⟩] = .fail "tracer-lost" 0 5 := by decide
+/-- a submission counted as a repetition of another one -/
+example : checkRun 1 exps1 [⟨0, 1, 0, none⟩, ⟨0, 5, 0, some []⟩, ⟨0, 5, 1, some [7]⟩, ⟨0, 1, 0, none⟩] = .fail "trace" 0 5 := by decide
+/-- a submission that arrives with other entries than it collected, while nothing has to arrive (Shutdown
+    requested during the call): still not accepted -/
+example : checkRun 1 (fun _ => [⟨5, 3, 0, .tracer, [⟨some ⟨3, false, []⟩, false, 1⟩], [7]⟩]) [⟨0, 5, 0, some [8]⟩] =
+    .fail "unexpected" 0 5 := by decide
+example : checkRun 1 (fun _ => [⟨5, 3, 0, .tracer, [⟨some ⟨3, false, []⟩, false, 1⟩], [7]⟩]) [] = .pass := by decide
+/-- `A B A` with `B` below the level in force: the two `A` lines arrive next to each other (and may have
+    been merged); the greedy walk alone would call the second one a duplicate. -/
+def exps2 : Nat → List Item := fun _ =>
+  [⟨1, 3, 0, .plain, [⟨some ⟨3, false, []⟩, true, 1⟩], []⟩, ⟨2, 2, 0, .plain, [⟨some ⟨3, false, []⟩, true, 1⟩], []⟩,
+   ⟨1, 3, 0, .plain, [⟨some ⟨3, false, []⟩, true, 1⟩], []⟩]
+example : greedyProd 0 (exps2 0) [⟨1, none⟩, ⟨1, none⟩] = .fail "duplicated" 0 1 := by decide
+example : checkRun 1 exps2 [⟨0, 1, 1, none⟩] = .pass := by decide
+example : checkRun 1 exps2 [⟨0, 1, 2, none⟩] = .fail "duplicated" 0 1 := by decide
+example : checkRun 1 exps2 [⟨0, 1, 0, none⟩] = .fail "lost" 0 1 := by decide
 
 end PB.C20
